@@ -146,10 +146,7 @@ def random_skips(rng, n_events, rep):
         rep.violation(f"skip event rejected by Trace_Skip (res={obs[i].get('res')})", {"fam": "de_ignore", "cmd": cmds[i]},
                       expected="value = Dec's value with the sub-tree blanked; consumed = Dec's end (Trace_Skip.tla)", observed=obs[i])
     traces = codec.validate_events("Trace_Skip", "Trace_Skip.cfg", events, scope_path, rej)
-    for ev in events:
-        if ev["res"] == "ok":
-            codec.binding_check("Trace_Skip", "Trace_Skip.cfg", ev, lambda e: dict(e, consumed=e["consumed"] + 1), scope_path)
-            break
+    codec.binding_check_some("Trace_Skip", "Trace_Skip.cfg", (ev for ev in events if ev["res"] == "ok"), lambda e: dict(e, consumed=e["consumed"] + 1), scope_path)
     return {"traces": traces, "events": len(events), "samples": [events[0]]}
 
 
